@@ -518,6 +518,8 @@ class Interp:
             return VStruct(name, [])
         m = re.match(r'^([\w:]+)\(\(\)\)$', t)
         if m: return VStruct(m.group(1), [VUnit()])
+        m = re.match(r'^([\w:]+(?:<.*>)?) \{\{\s*\}\}$', t)       # `Name {{  }}`: a struct without fields
+        if m: return VStruct(m.group(1), [])
         if t.startswith('{closure@') or t.startswith('ZeroSized'):
             m = re.search(r'\{closure@[^}]*\}', t)
             if m: return VFn(None, closure=m.group(0))
